@@ -55,6 +55,21 @@ def make_factory(kind):
     raise ValueError(kind)
 
 
+_ADAPTED = {}
+
+
+def adapted(name):
+    """One adapted operation per user function and process (its compiled-function cache lives on that object)."""
+    import einx.numpy
+
+    if name not in _ADAPTED:
+        kind, fname = name.split(":")
+        g = getattr(np, fname)
+        f = (lambda x, axis: g(x, axis=axis)) if kind == "reduce" else (lambda *xs: g(*xs))
+        _ADAPTED[name] = einx.numpy.adapt_numpylike_reduce(f) if kind == "reduce" else einx.numpy.adapt_numpylike_elementwise(f)
+    return _ADAPTED[name]
+
+
 def outcome_of(call):
     args = []
     for i, s in enumerate(call["shapes"]):
@@ -71,11 +86,12 @@ def outcome_of(call):
     if call.get("graph"):
         kw["graph"] = True
     try:
+        fn = adapted(call["adapter"]) if call.get("adapter") else getattr(einx, call["op"])
         if call.get("with_backend"):
             with einx.backend.get(call["with_backend"]):
-                r = getattr(einx, call["op"])(call["desc"], *args, **kw)
+                r = fn(call["desc"], *args, **kw)
         else:
-            r = getattr(einx, call["op"])(call["desc"], *args, **kw)
+            r = fn(call["desc"], *args, **kw)
     except Exception as e:
         del args
         return {"exc": type(e).__name__}
